@@ -82,6 +82,27 @@ def getTrackingIds (m : Mapping) (descs : List Desc) (f : Filter) : Except ErrKi
     | some i, some u => if (trackingFilterFuncs m f).all (fun g => g d) then some (i, u) else none
     | _, _ => none).eraseDups)
 
+/-- the loop of `segmented_property_categories` / `segmented_property_types`: `if c not in acc: acc.append(c)` — Python's
+`c in acc` is `any(c is e or c == e for e in acc)`, `==` being `CodedConcept.__eq__`, i.e. pydicom's code equality with the
+new code on the left -/
+def dedupCodes (m : Mapping) (codes : List PCode) : List PCode :=
+  codes.foldl (fun acc c => if acc.any (fun e => pydCodeEq m c e) then acc else acc ++ [c]) []
+
+/-- `segmented_property_categories`: the background item of a label map is skipped -/
+def propertyCategories (m : Mapping) (descs : List Desc) (ppv : Option Nat) : List PCode :=
+  dedupCodes m ((descs.filter fun d => match ppv with | some p => d.number != p | none => true).map (·.category))
+
+/-- `segmented_property_types` -/
+def propertyTypes (m : Mapping) (descs : List Desc) (ppv : Option Nat) : List PCode :=
+  dedupCodes m ((descs.filter fun d => match ppv with | some p => d.number != p | none => true).map (·.ptype))
+
+/-- `get_segment_description`: the first item with that number (the background item of a label map included), IndexError
+when there is none -/
+def getSegmentDescription (descs : List Desc) (n : Nat) : Except ErrKind Desc :=
+  match descs.find? (fun d => d.number == n) with
+  | some d => .ok d
+  | none => .error .index
+
 /-! ### specification-level views -/
 
 /-- a description meets every criterion that is given -/
